@@ -224,6 +224,12 @@ impl<'a> AnyCache<'a> {
     pub(crate) fn reload_untyped(self, id: SharedString, typ: Type) -> Option<Dependencies> {
         let handle = self.get_cached_untyped(&id, typ)?;
 
+        // A value added with `get_or_insert` may have replaced a loaded asset
+        // that was removed from the cache: it must not be reloaded.
+        if !handle.is_dynamic() {
+            return None;
+        }
+
         let load_asset = || (typ.inner.load)(self, id);
         let (entry, deps) = if let Some(reloader) = self.reloader() {
             records::record(reloader, load_asset)
@@ -406,7 +412,8 @@ pub(crate) trait CacheExt: Cache {
     #[cold]
     fn add_any<T: Storable>(&self, id: &str, asset: T) -> &UntypedHandle {
         let id = SharedString::from(id);
-        let entry = CacheEntry::new(asset, id, || self._has_reloader());
+        // Values added this way are never reloaded: they don't need a lock
+        let entry = CacheEntry::new(asset, id, || false);
 
         self.insert(entry)
     }
